@@ -1655,6 +1655,9 @@ def sig_check(prop, tier):
         # points, then the checked request follows in the same injector
         for form in ("func", "fake", "closure"):
             scen.append({"id": len(scen) + 1, "mode": "pairs", "form": form, "types": fam["types"], "primed": True})
+        # ... nor on an earlier valid checked installation of the replacement's own type (then the request proper)
+        for form in ("unchecked-typed", "typed-unchecked", "func"):
+            scen.append({"id": len(scen) + 1, "mode": "pairs", "form": form, "types": fam["types"], "checked_first": True})
         groups, order, _ = vlib.run_harness("sig", scen, "sig_C09")
         # the same gate through EVERY arm of fake!: identical type accepted, another kind refused
         try:
@@ -1711,7 +1714,7 @@ def sig_check(prop, tier):
             ref += e["verdict"] == "refused"
         if sid not in tv["accepted"]:
             if e["ev"] == "Pair":
-                key = "C09 form=%s%s target=%s fake=%s verdict=%s" % (e["form"], " after the same pair through the unchecked entry points" if e.get("primed") else "",
+                key = "C09 form=%s%s target=%s fake=%s verdict=%s" % (e["form"], " after the same pair through the unchecked entry points" if e.get("primed") else (" after a valid checked installation of the replacement's type" if e.get("checked_first") else ""),
                                                                         e["ta"]["text"], e["tb"]["text"], e["verdict"])
             elif e["ev"] == "BoolGate":
                 key = "C10 ret=%s verdict=%s" % (e["fam"]["ret"], e["verdict"])
